@@ -21,7 +21,7 @@ func init() {
 		Rule: "E1 over (content x quoting x layout): argument strings are composed from a piece alphabet (plain words, words with escapes, comment look-alikes, '+', ';', '{', quotes, non-ASCII), rendered unquoted / single-quoted / double-quoted / as '+' concatenations of up to 3 pieces with blanks, line breaks and comments between the pieces, under every statement indent, keyword, continuation-line indent (blanks and tabs around the quote column), trailing-blank pattern, LF/CRLF, blank continuation lines and empty last line; " +
 			"the expected value comes from a decoder written from RFC 6020 6.1.3 applied to the generator's own structure (never by re-parsing). Cases the RFC does not settle (a tab straddling the quote column, escapes adjacent to stripped white space, other backslash sequences) are not generated or counted as unspecified. Non-trivial = the case has a line break, an escape, a concatenation or a comment look-alike.",
 		Bound: map[string]string{
-			"quick":    "<=2 continuation lines, all layouts, single escapes, concatenations of <=3 pieces with 6 separators",
+			"quick":    "<=2 continuation lines (each line break LF or CRLF independently; 4 continuation lines for every sequence of line-break styles), all layouts, single escapes, concatenations of <=3 pieces with 6 separators",
 			"thorough": "<=3 continuation lines with independent indents, pairs of escapes, all piece triples",
 		},
 		Assumptions: []string{
@@ -162,17 +162,37 @@ func run(c *engine.Ctx) {
 									// the same raw text occurs earlier in the file in another column
 									r.one("dup", "                contact \""+raw+"\";\n"+prefix+"\""+raw+"\";", kw, want, true)
 								}
+								if tr == "" && !strings.Contains(raw, "*/") {
+									// the same raw text occurs later in the same statement: in a comment
+									// before the ';' and inside a second concatenated piece (other column)
+									r.one("later", prefix+"\""+raw+"\" /* "+raw+" */ ;", kw, want, true)
+									if w2x, ok := yangstr.DecodeDouble("x "+raw, 0); ok {
+										r.one("later", prefix+"\""+raw+"\" +\n\"x "+raw+"\";", kw, want+w2x, true)
+									}
+								}
 								if c.Quick() && (w2 != "b" && w2 != "") {
 									continue
 								}
 								// a third line: blank line, or another indented line, or empty last line
-								for _, l3 := range []string{"", ind, ind + "e", " f", strings.Repeat(" ", q+1) + "g" + tr} {
-									raw3 := raw + tr + nl + l3
-									want3, ok := yangstr.DecodeDouble(raw3, q)
-									if !ok {
-										continue
+								// (the second line break in either style: mixed LF / CRLF files)
+								for _, nl2 := range []string{"\n", "\r\n"} {
+									for _, l3 := range []string{"", ind, ind + "e", " f", strings.Repeat(" ", q+1) + "g" + tr} {
+										raw3 := raw + tr + nl2 + l3
+										want3, ok := yangstr.DecodeDouble(raw3, q)
+										if !ok {
+											continue
+										}
+										r.one("ml3", prefix+"\""+raw3+"\";", kw, want3, true)
+										if l3 == ind+"e" && tr == "" && (w2 == "b" || w2 == "") {
+											// four lines, every sequence of line-break styles
+											for _, nl3 := range []string{"\n", "\r\n"} {
+												raw4 := raw3 + nl3 + ind + w2 + nl + "h"
+												if want4, ok := yangstr.DecodeDouble(raw4, q); ok {
+													r.one("ml5", prefix+"\""+raw4+"\";", kw, want4, true)
+												}
+											}
+										}
 									}
-									r.one("ml3", prefix+"\""+raw3+"\";", kw, want3, true)
 								}
 							}
 						}
